@@ -117,7 +117,25 @@ def _append_to_aug(st):
 
 
 def _split_tuple_assign(st):
-    """a, b = x, y  (no target name read on the right)  ->  a = x ; b = y"""
+    """a, b = x, y  (no target name read on the right)  ->  a = x ; b = y
+    a, b = m.groups()  ->  a = m.group(1) ; b = m.group(2)   (m a plain name)"""
+    if isinstance(st, ast.Assign) and len(st.targets) == 1 \
+            and isinstance(st.targets[0], ast.Tuple) and isinstance(st.value, ast.Call) \
+            and isinstance(st.value.func, ast.Attribute) and st.value.func.attr == "groups" \
+            and not st.value.args and not st.value.keywords \
+            and isinstance(st.value.func.value, ast.Name) \
+            and all(isinstance(t, ast.Name) for t in st.targets[0].elts) \
+            and st.value.func.value.id not in {t.id for t in st.targets[0].elts}:
+        out = []
+        for i, t in enumerate(st.targets[0].elts):
+            call = ast.Call(func=ast.Attribute(value=ast.Name(id=st.value.func.value.id,
+                                                              ctx=ast.Load()),
+                                               attr="group", ctx=ast.Load()),
+                            args=[ast.Constant(i + 1)], keywords=[])
+            a = ast.copy_location(ast.Assign(targets=[t], value=call), st)
+            ast.fix_missing_locations(a)
+            out.append(a)
+        return out
     if isinstance(st, ast.Assign) and len(st.targets) == 1 \
             and isinstance(st.targets[0], ast.Tuple) and isinstance(st.value, ast.Tuple) \
             and len(st.targets[0].elts) == len(st.value.elts) \
@@ -1824,8 +1842,6 @@ def module_constants(tree):
             nm = st.targets[0].id
             if nm.startswith("_") or nm.isupper():
                 tables[nm] = st.value
-    if not env and not tables:
-        return tree
 
     class R(ast.NodeTransformer):
         def visit_Name(self, n):
@@ -1837,7 +1853,56 @@ def module_constants(tree):
             if isinstance(n.iter, ast.Name) and n.iter.id in tables:
                 n.iter = copy.deepcopy(tables[n.iter.id])
             return self.generic_visit(n)
-    return R().visit(tree)
+
+        def visit_comprehension(self, n):
+            if isinstance(n.iter, ast.Name) and n.iter.id in tables:
+                n.iter = copy.deepcopy(tables[n.iter.id])
+            return self.generic_visit(n)
+    tree = R().visit(tree)
+
+    class U(ast.NodeTransformer):
+        """a list / dict comprehension over a display of rows of constants and names is the
+        display of its elements"""
+        def _rows(self, node):
+            if len(node.generators) != 1:
+                return None
+            g = node.generators[0]
+            if g.ifs or g.is_async or not isinstance(g.iter, (ast.Tuple, ast.List)) \
+                    or not 1 <= len(g.iter.elts) <= 16 \
+                    or not all(_simple_table_elt(e) for e in g.iter.elts):
+                return None
+            maps = []
+            for e in g.iter.elts:
+                if isinstance(g.target, ast.Name):
+                    maps.append({g.target.id: e})
+                elif isinstance(g.target, (ast.Tuple, ast.List)) and isinstance(
+                        e, (ast.Tuple, ast.List)) and len(e.elts) == len(g.target.elts) \
+                        and all(isinstance(t, ast.Name) for t in g.target.elts):
+                    maps.append({t.id: v for t, v in zip(g.target.elts, e.elts)})
+                else:
+                    return None
+            return maps
+
+        def visit_ListComp(self, node):
+            self.generic_visit(node)
+            maps = self._rows(node)
+            if maps is None:
+                return node
+            return ast.copy_location(ast.List(
+                elts=[_Subst(m).visit(copy.deepcopy(node.elt)) for m in maps],
+                ctx=ast.Load()), node)
+
+        def visit_DictComp(self, node):
+            self.generic_visit(node)
+            maps = self._rows(node)
+            if maps is None:
+                return node
+            return ast.copy_location(ast.Dict(
+                keys=[_Subst(m).visit(copy.deepcopy(node.key)) for m in maps],
+                values=[_Subst(m).visit(copy.deepcopy(node.value)) for m in maps]), node)
+    tree = U().visit(tree)
+    ast.fix_missing_locations(tree)
+    return tree
 
 
 # ---------------------------------------------------------------------------------------------
